@@ -58,6 +58,9 @@ EXCLUDED_FORMS = [
     "Callable[P2, int]", "Callable[Concatenate[int, P2], str]", "list[Callable[P2, T]]",
     "List", "Dict", "Tuple", "Callable", "Type", "type", "tuple", "Sequence",
     '"Annotated[()]"', 'list["Annotated[()]"]',
+    # deliberately unsupported syntax inside string annotations: every route must report it, and the checked-module
+    # routes must report it *at the annotation* (positions inside the parsed string are not positions in the file)
+    '"int if A else str"', '"lambda: int"', 'list["int < str"]', '"[int for _ in ()]"', 'Optional["f\'{int}\'"]',
 ]
 
 # class codes shared with the Coq model
@@ -88,8 +91,10 @@ def gen_expr(rng, depth, exotic=0.12):
             return ("ENone",)
         if r < 0.85:
             return ("EAny",)
-        if r < 0.95:
+        if r < 0.93:
             return ("ELiteral", rng.sample(list(LITS), rng.choice([1, 1, 2, 3])))
+        if r < 0.97:
+            return ("EAlias", 40)
         return ("ETupleEmpty",)
     sub = lambda: gen_expr(rng, depth - 1, exotic)
     subs = lambda lo, hi: [sub() for _ in range(rng.randint(lo, hi))]
@@ -101,7 +106,9 @@ def gen_expr(rng, depth, exotic=0.12):
             return (k, rng.sample(list(LITS), rng.choice([1, 2])), rng.sample(list(LITS), rng.choice([0, 1, 2])))
         return (k, sub())
     k = rng.choice(["EOptional", "EUnion", "EOr", "EGeneric", "EGeneric", "ETupleVar", "ETupleFixed", "EUnpackTuple", "EType", "ECallableAny",
-                    "ECallable", "EAnnotated", "EStr", "EStr"])
+                    "ECallable", "EAnnotated", "EStr", "EStr", "EAliasApp"])
+    if k == "EAliasApp":
+        return (k, 41, [sub()])
     if k == "EUnion":
         return (k, subs(1, 3))
     if k == "EOr":
@@ -127,8 +134,10 @@ def to_list(e):
 def norm_expr(e):
     """JSON form -> tuple form"""
     k = e[0]
-    if k in ("EClass",):
+    if k in ("EClass", "EAlias"):
         return (k, int(e[1]))
+    if k == "EAliasApp":
+        return (k, int(e[1]), [norm_expr(x) for x in e[2]])
     if k in ("ENone", "EAny", "ETupleEmpty"):
         return (k,)
     if k in ("EOptional", "ETupleVar", "EType", "ECallableAny", "EFinal", "EClassVar", "EStr"):
@@ -147,10 +156,14 @@ def norm_expr(e):
         return (k, [int(x) for x in e[1]], [int(x) for x in e[2]])
     if k == "EAnnotated":
         return (k, norm_expr(e[1]), int(e[2]))
+    if k == "EBareUnpack":
+        return (k, e[1], [norm_expr(x) for x in e[2]])
     raise ValueError(e)
 
 
 NAME_OF_CLASS = {v: k for k, v in CLASSES.items()}
+ALIASES = {40: "IntOrStr", 41: "LA"}          # PEP 695: type IntOrStr = int | str; type LA[X] = list[X]
+CODE_OF_ALIAS = {v: k for k, v in ALIASES.items()}
 
 
 def render(e, rng):
@@ -158,6 +171,10 @@ def render(e, rng):
     r = lambda x: render(x, rng)
     if k == "EClass":
         return NAME_OF_CLASS[e[1]]
+    if k == "EAlias":
+        return ALIASES[e[1]]
+    if k == "EAliasApp":
+        return ALIASES[e[1]] + "[" + ", ".join(r(x) for x in e[2]) + "]"
     if k == "ENone":
         return "None"
     if k == "EAny":
@@ -198,6 +215,11 @@ def render(e, rng):
         return f"ClassVar[{r(e[1])}]"
     if k == "EStr":
         return repr(r(e[1]))
+    if k == "EBareUnpack":   # only as the annotation of *args; outside the Coq model
+        inner = ", ".join(r(x) for x in e[2])
+        if e[1] == "star":
+            return f"*tuple[{inner}]"
+        return f"Unpack[Tuple[{inner}{', ...' if e[1] == 'var' else ''}]]"
     raise ValueError(e)
 
 
@@ -208,6 +230,10 @@ def coq_expr(e):
     Z = lambda xs: lib.clist([lib.cz(x) for x in xs])
     if k == "EClass":
         return f"(EClass {lib.cn(e[1])})"
+    if k == "EAlias":
+        return f"(EAlias {lib.cn(e[1])})"
+    if k == "EAliasApp":
+        return f"(EAliasApp {lib.cn(e[1])} {L(e[2])})"
     if k in ("ENone", "EAny", "ETupleEmpty"):
         return k
     if k in ("EOptional", "ETupleVar", "EType", "ECallableAny", "EFinal", "EClassVar", "EStr"):
@@ -335,6 +361,8 @@ def decode_model1(t):
         return ("call", tuple(decode_model1(x) for x in t[1]), decode_model1(t[2]))
     if k == "TAnnot":
         return push_annot(decode_model1(t[1]), (t[2],))
+    if k == "TAlias":
+        return ("alias", t[1], tuple(decode_model1(x) for x in t[2]))
     raise ValueError(t)
 
 
@@ -354,6 +382,8 @@ def encode_value(v):
 
     if isinstance(v, TypeAliasValue):
         # outside the model (has_other), but with a canonical text so that the routes can be compared
+        if v.name in CODE_OF_ALIAS:
+            return ("alias", CODE_OF_ALIAS[v.name], tuple(encode_value(a) for a in v.type_arguments))
         return ("other", "alias", v.name, tuple(encode_value(a) for a in v.type_arguments))
 
     if isinstance(v, NewTypeValue):
@@ -422,6 +452,7 @@ def seal(c):
 
 
 IGNORED_METADATA = [0]
+LOCATION_ERRORS = []
 
 
 def has_other(c):
@@ -503,10 +534,23 @@ def impl_routes(exprs_src):
             code = PRELUDE + "".join(f"def f{i}(x: {repr(exprs_src[i]) if quote else exprs_src[i]}):\n    _v = x\n" for i in idx)
             tree, errors, mod = run_visitor(code)
             by_line = {}
+            fns = {n.name: n for n in tree.body if isinstance(n, ast.FunctionDef)}
+            ann_pos = {fn.lineno: fn.args.args[0].annotation.col_offset for fn in fns.values() if fn.name.startswith("f") and fn.args.args}
+            ann_is_str = {fn.lineno: isinstance(fn.args.args[0].annotation, ast.Constant) for fn in fns.values() if fn.name.startswith("f") and fn.args.args}
             for e in errors:
                 if e["code"].name not in LINT:
                     by_line.setdefault(e["lineno"], []).append(e["code"].name)
-            fns = {n.name: n for n in tree.body if isinstance(n, ast.FunctionDef)}
+                    # every diagnostic about an annotation must be shown inside the annotation of its def line:
+                    # the annotation node's own line, at or after its column (fix d534a5b: also for string annotations,
+                    # whose parsed nodes carry positions relative to the string)
+                    if e["code"].name in ("invalid_annotation", "undefined_name", "internal_error"):
+                        col = e.get("col_offset")
+                        if e["lineno"] not in ann_pos:
+                            LOCATION_ERRORS.append({"route": tag, "lineno": e["lineno"], "col_offset": col, "message": str(e.get("description"))[:120],
+                                                    "why": "no annotation on that line"})
+                        elif ann_is_str.get(e["lineno"]) and col != ann_pos[e["lineno"]]:
+                            LOCATION_ERRORS.append({"route": tag, "lineno": e["lineno"], "col_offset": col, "expected_col": ann_pos[e["lineno"]],
+                                                    "source": code.splitlines()[e["lineno"] - 1], "why": "not at the string annotation node"})
             for i in idx:
                 fn = fns[f"f{i}"]
                 codes = by_line.get(fn.lineno, [])
@@ -533,6 +577,15 @@ def impl_routes(exprs_src):
 KINDS = ["PosOnly", "PosOrKw", "VarPos", "KwOnly", "VarKw"]
 PK = {"POSITIONAL_ONLY": "PosOnly", "POSITIONAL_OR_KEYWORD": "PosOrKw", "VAR_POSITIONAL": "VarPos", "KEYWORD_ONLY": "KwOnly", "VAR_KEYWORD": "VarKw"}
 NAMES = ["a", "b", "c", "d", "e", "__p", "__q", "_u", "__d__"]
+
+
+def unmodelled_header(h):
+    """headers whose *args carries a bare Unpack[...] / *tuple[...]: Signature.make's expansion is not in the Coq model"""
+    return any(p is not None and p[3] is not None and p[3][0] == "EBareUnpack" for p in h[0])
+
+
+def star_args_header(h):
+    return any(p is not None and p[3] is not None and p[3][0] == "EBareUnpack" and p[3][1] == "star" for p in h[0])
 
 
 def is_private(n):
@@ -571,7 +624,16 @@ def gen_header(rng, private_rate=0.2):
             out.append(None)
             continue
         ann = None
-        if rng.random() < 0.7:
+        if p[1] == "VarPos" and rng.random() < 0.3:
+            mode = rng.choice(["fixed", "fixed", "var", "star"])
+            n_el = 1 if mode == "var" else rng.choice([1, 2, 3])
+            els = []
+            while len(els) < n_el:
+                e1 = gen_expr(rng, rng.choice([0, 0, 1]), exotic=0.0)
+                if evaluable(e1):
+                    els.append(e1)
+            ann = ("EBareUnpack", mode, els)
+        elif rng.random() < 0.7:
             ann = gen_expr(rng, rng.choice([0, 1, 1, 2]), exotic=0.03)
             if not evaluable(ann):
                 ann = ("EClass", 1)
@@ -725,7 +787,7 @@ def model_calls(headers, calls):
     """-> [(binds in the defining scope, binds from an importer)]"""
     terms = []
     for h, a in calls:
-        lst = lib.clist([sparam_term(p) for p in h[0] if p is not None])
+        lst = lib.clist([sparam_term(p) for p in h[0] if p is not None]) if not unmodelled_header(h) else "[]"
         b = lambda f: f"(match {f} {lst} {raw_term(a)} with Some _ => true | None => false end)"
         terms.append(f"({b('call_in_defining_scope')}, {b('call_from_importer')})")
     hdr = HEADER.replace("PV.Annot.DefSig.", "PV.Annot.DefSig PV.Annot.Calls.\nRequire PV.Binder.Bind.")
@@ -778,6 +840,8 @@ def model_routes(exprs):
 def model_sigs(headers):
     terms = []
     for ps, ret in headers:
+        if unmodelled_header((ps, ret)):
+            ps = []
         lst = lib.clist([sparam_term(p) for p in ps if p is not None])
         f = "(map (fun s => (s_name s, s_kind s, (s_default s, s_type s))) "
         r = "None" if ret is None else f"(Some {coq_expr(ret)})"
@@ -943,6 +1007,8 @@ def run(tier: str, replay: str | None = None):
                 bad = [k for k in ROUTES if m[k] != vals[k]]
                 corr.append(({"expr": jsonable(e), "source": src}, {k: jsonable(vals[k]) for k in bad}, {k: jsonable(m[k]) for k in bad},
                              f"Routes.route_{bad[0]} vs " + {"ast": "type_from_ast", "str": "type_from_runtime(str)", "rt": "type_from_runtime(eval(E))", "vis": "value_of_annotation", "visstr": "value_of_annotation (string)"}[bad[0]]))
+    for le in LOCATION_ERRORS[:3]:
+        failing.append(({"source": le.get("source", "")}, le, "a diagnostic about an annotation is not located at the annotation"))
     # ------------------------------------------------------------------ signatures
     hsrc = pre_rendered if not replay else [render_header(h, rrng) for h in headers]
     sigs = impl_signatures(hsrc) if headers else []
@@ -973,10 +1039,15 @@ def run(tier: str, replay: str | None = None):
         r = ([tuple(p) for p in s["rt"][0]], s["rt"][1])
         private = any(is_private(p[0]) and p[1] == "PosOrKw" for p in ps)
         exotic = any(guard_clauses(p[3]) for p in ps if p[3] is not None) or (h[1] is not None and guard_clauses(h[1]))
-        m = msigs[i] if msigs else None
+        m = msigs[i] if msigs and not unmodelled_header(h) else None
         model_agrees = m is not None and ([tuple(p) for p in m["def"][0]], m["def"][1]) == d and ([tuple(p) for p in m["rt"][0]], m["rt"][1]) == r
+        if unmodelled_header(h):
+            bump("sig_verdict", "unpacked-args:" + ("same" if d == r else "differ"))
         if d == r:
             bump("sig_verdict", "same")
+        elif star_args_header(h) and "C13-bare-star-args-annotation" in findings_text and [p[:3] for p in d[0]] == [p[:3] for p in r[0]]:
+            bump("sig_verdict", "known-finding")
+            rep.known("C13-bare-star-args-annotation", findings_text["C13-bare-star-args-annotation"])
         elif private and not exotic and model_agrees and "C13-private-name-positional-only" in findings_text:
             bump("sig_verdict", "known-finding")
             rep.known("C13-private-name-positional-only", findings_text["C13-private-name-positional-only"])
@@ -1011,7 +1082,7 @@ def run(tier: str, replay: str | None = None):
             for ci, (j, a) in enumerate(calls):
                 n_calls += 1
                 h = headers[sel[j]]
-                if mcalls is not None:
+                if mcalls is not None and not unmodelled_header(h):
                     m_def, m_rt = mcalls[ci]
                     i_def = "incompatible_call" not in res["nested"][ci]
                     i_rt = "incompatible_call" not in res["imported"][ci]
@@ -1033,6 +1104,9 @@ def run(tier: str, replay: str | None = None):
                 if trio[0] == trio[1] and private and "C13-private-name-positional-only" in findings_text:
                     bump("call_verdict", "known-finding")
                     rep.known("C13-private-name-positional-only", findings_text["C13-private-name-positional-only"])
+                elif trio[0] == trio[1] and star_args_header(h) and "C13-bare-star-args-annotation" in findings_text:
+                    bump("call_verdict", "known-finding")
+                    rep.known("C13-bare-star-args-annotation", findings_text["C13-bare-star-args-annotation"])
                 elif trio[0] == trio[1] and exotic:
                     bump("call_verdict", "known-finding")
                 else:
@@ -1072,6 +1146,7 @@ def run(tier: str, replay: str | None = None):
         calls=n_calls,
         annotated_metadata_ignored=IGNORED_METADATA[0],
         excluded_forms_compared=len(EXCLUDED_FORMS),
+        annotation_diagnostics_mislocated=len(LOCATION_ERRORS),
         exhaustive=False,
     )
     rep.assumptions = [
